@@ -257,6 +257,7 @@ class Obs:
                 self.sub[s]["container"] = None
             del self.sub[s]["ce"]
         ci = 0
+        seen_ps = {}
         while ci < len(self.containers):
             cd = self.containers[ci]
             c = cd["obj"]
@@ -265,6 +266,14 @@ class Obs:
             cd["envelopes"] = [role(x) for x in c.envelopes]
             cd["state_objs"] = [role(x) for x in c.state_objs]
             for pi, ps in enumerate(c.states):
+                if id(ps) in seen_ps:
+                    # the same ProductState object listed by two containers (stale pointer): one block only
+                    self.registry_problems.append(
+                        f"product space {seen_ps[id(ps)]} is also listed by container c{ci}")
+                    cd["ps_ids"].append(id(ps))
+                    cd["ps_container_ok"].append(ps.container is c)
+                    continue
+                seen_ps[id(ps)] = f"c{ci}#{pi}"
                 b = Block("ps", f"c{ci}#{pi}")
                 b.members = [role(x) for x in ps.state_objs]
                 b.level = lvl(ps.expansion_level)
